@@ -398,6 +398,60 @@ impl Socks5UdpCodec {
     }
 }
 
+//@@ octo-squirrel/src/codec.rs:31-31  struct BytesCodec  sha=e370c0c9b665f23f
+pub struct BytesCodec;
+
+//@@ octo-squirrel/src/codec.rs:33-45  impl Decoder for BytesCodec  sha=36c4625538f0f0a6
+impl BytesCodec {
+
+    fn decode(&mut self, buf: &mut BytesMut) -> Result<Option<BytesMut>> {
+        if !buf.is_empty() {
+            let len = buf.len();
+            Ok(Some(buf.split_to(len)))
+        } else {
+            Ok(None)
+        }
+    }
+}
+
+//@@ octo-squirrel/src/codec.rs:47-54  impl Encoder for BytesCodec#0  sha=1bf9008e5cc78f08
+impl BytesCodec {
+
+    fn encode_bytes(&mut self, data: Bytes, buf: &mut BytesMut) -> Result<()> {
+        buf.extend_from_slice(&data);
+        Ok(())
+    }
+}
+
+//@@ octo-squirrel/src/codec.rs:56-63  impl Encoder for BytesCodec#1  sha=60cbf13fa2a0a293
+impl BytesCodec {
+
+    fn encode(&mut self, data: BytesMut, buf: &mut BytesMut) -> Result<()> {
+        buf.extend_from_slice(&data);
+        Ok(())
+    }
+}
+
+//@@ octo-squirrel/src/protocol/socks.rs:1-5  enum SocksVersion  sha=a233577e63cf4e43
+pub enum SocksVersion {
+    Socks4a = 4,
+    Socks5 = 5,
+    Unknown = 0xff,
+}
+
+//@@ octo-squirrel/src/protocol/socks.rs:7-17  impl From for SocksVersion  sha=f19247d01cc8c311
+impl From<u8> for SocksVersion {
+    fn from(value: u8) -> Self {
+        if value == Self::Socks4a as u8 {
+            return Self::Socks4a;
+        }
+        if value == Self::Socks5 as u8 {
+            return Self::Socks5;
+        }
+        Self::Unknown
+    }
+}
+
 //@@ octo-squirrel-client/src/client/handshake.rs:14-20  enum Proxy  sha=f99bae47548f5418
 pub enum Proxy {
     Http(Address),
@@ -407,7 +461,7 @@ pub enum Proxy {
     Error(String),
 }
 
-//@@ octo-squirrel-client/src/client/handshake.rs:68-110  fn recognize_http  sha=a9369f9a9500c083
+//@@ octo-squirrel-client/src/client/handshake.rs:79-121  fn recognize_http  sha=a9369f9a9500c083
 #[verifier::external_body] fn verif_str_5a5e2bae0f() -> (r: &'static str) ensures strb(r) =~= seq![58u8, 47u8, 47u8] { "://" }
 #[verifier::external_body] fn verif_str_5bb4dc6f47() -> (r: &'static str) ensures strb(r) =~= seq![67u8, 79u8, 78u8, 78u8, 69u8, 67u8, 84u8] { "CONNECT" }
 enum Port {
@@ -450,6 +504,67 @@ fn recognize_http(method: &str, mut path: &str) -> Result<Proxy, anyhow::Error> 
         } else {
             let host = path.v_to_owned();
             Ok(Proxy::Http(Address::Domain(host, 80)))
+        }
+    }
+}
+
+//@@ octo-squirrel-client/src/client/handshake.rs:22-54  fn get_request_addr  sha=fcfe7b29160d3a0e
+#[verifier::external_body] fn verif_lit_dba5166ad9() -> (r: &'static [u8]) ensures r@ =~= seq![13u8, 10u8, 13u8, 10u8] { b"\r\n\r\n" }
+#[verifier::external_body] fn verif_lit_f55260227c() -> (r: &'static [u8]) ensures r@ =~= seq![72u8, 84u8, 84u8, 80u8, 47u8, 49u8, 46u8, 49u8, 32u8, 50u8, 48u8, 48u8, 32u8, 67u8, 111u8, 110u8, 110u8, 101u8, 99u8, 116u8, 105u8, 111u8, 110u8, 32u8, 101u8, 115u8, 116u8, 97u8, 98u8, 108u8, 105u8, 115u8, 104u8, 101u8, 100u8, 13u8, 10u8, 13u8, 10u8] { b"HTTP/1.1 200 Connection established\r\n\r\n" }
+fn get_request_addr(stream: &mut TcpStream) -> anyhow::Result<Address> {
+    { verif_timeout(Duration::from_secs(30))?;
+        let next = recognize(stream)?;
+        match next {
+            Proxy::Http(address) => Ok(address),
+            Proxy::Https(address) => {
+                // consume the CONNECT request exactly: up to and including the blank line that ends its head, however it is segmented
+                let mut head = Vec::new();
+                let mut byte = [0; 1];
+                while !head.ends_with(verif_lit_dba5166ad9()) {
+                    if head.len() >= 8192 {
+                        return Err(verif_err());
+                    }
+                    if stream.read(&mut byte)? == 0 {
+                        return Err(verif_err());
+                    }
+                    head.push(byte[0]);
+                }
+                stream.write_all(verif_lit_f55260227c())?;
+                Ok(address)
+            }
+            Proxy::Socks5 => {
+                let local_addr = stream.local_addr()?;
+                let response = Socks5CommandResponse::new(Socks5CommandStatus::Success, local_addr.into());
+                let handshake = s5srv__no_auth(stream, response)?;
+                Ok(handshake.dst_addr)
+            }
+            Proxy::Unknown => return Err(verif_err()),
+            Proxy::Error(msg) => return Err(verif_err()),
+        }
+    }
+}
+
+//@@ octo-squirrel-client/src/client/handshake.rs:56-77  fn recognize  sha=0d99050d215ee906
+#[verifier::external_body] fn verif_lit_0468b3505b() -> (r: &'static [u8]) ensures r@ =~= seq![72u8, 84u8, 84u8, 80u8, 47u8, 49u8, 46u8, 49u8, 32u8, 52u8, 49u8, 52u8, 32u8, 85u8, 82u8, 73u8, 32u8, 84u8, 111u8, 111u8, 32u8, 76u8, 111u8, 110u8, 103u8, 13u8, 10u8, 13u8, 10u8] { b"HTTP/1.1 414 URI Too Long\r\n\r\n" }
+fn recognize(stream: &mut TcpStream) -> Result<Proxy, anyhow::Error> {
+    let mut buf = [0; 1];
+    stream.peek(&mut buf)?;
+    let version = SocksVersion::from(buf[0]);
+    if matches!(version, SocksVersion::Socks5) {
+        Ok(Proxy::Socks5)
+    } else {
+        let mut buf = [0; 1024];
+        let len = stream.peek(&mut buf)?;
+        let mut headers = [];
+        let mut req = httparse::Request::new(&mut headers);
+        match (req.parse(&buf[..len]), req.path, req.method) {
+            (_, Some(path), Some(method)) => Ok(recognize_http(method, path)?),
+            (_, None, Some(_)) => {
+                stream.write_all(verif_lit_0468b3505b())?;
+                stream.shutdown()?;
+                Ok(Proxy::Error("URI too long".to_owned()))
+            }
+            _ => Ok(Proxy::Unknown),
         }
     }
 }
